@@ -84,3 +84,53 @@ theorem parseUintGo_dec0 (n bits : Nat) (h : n ≤ 2 ^ bits - 1) : parseUintGo (
     simp
 
 end LA
+
+namespace LA
+
+theorem digitLoop_bound {base M : Nat} {b0 : Bool} {s : Bytes} {acc : Nat} {us us' : Bool} {v : Int}
+    (h : digitLoop base M b0 s acc us = (.ok v, us')) (hacc : acc ≤ M) : 0 ≤ v ∧ v ≤ M := by
+  induction s generalizing acc us with
+  | nil => simp [digitLoop] at h; omega
+  | cons b bs ih =>
+    unfold digitLoop at h
+    split at h
+    · exact ih h hacc
+    · split at h
+      · simp at h
+      · rename_i d _
+        split at h
+        · simp at h
+        · split at h
+          · simp at h
+          · rename_i hle
+            exact ih h (by omega)
+
+theorem parseUintGo_bound {s : Bytes} {base bits : Nat} {v : Int} (h : parseUintGo s base bits = .ok v) :
+    0 ≤ v ∧ v ≤ ((2 ^ bits - 1 : Nat) : Int) := by
+  unfold parseUintGo at h
+  split at h
+  · simp at h
+  · simp only at h
+    split at h
+    · generalize hr : digitLoop (basePrefix s).1 (2 ^ bits - 1) true (basePrefix s).2 0 false = r at h
+      obtain ⟨r1, r2⟩ := r
+      simp only at h
+      cases r1 with
+      | ok w =>
+        simp only at h
+        split at h
+        · simp at h
+        · simp only [NumRes.ok.injEq] at h
+          subst h
+          exact digitLoop_bound hr (by omega)
+      | _ => simp at h
+    · generalize hr : digitLoop base (2 ^ bits - 1) false s 0 false = r at h
+      obtain ⟨r1, r2⟩ := r
+      simp only at h
+      subst h
+      exact digitLoop_bound hr (by omega)
+
+theorem toU32_lt (x : Int) : toU32 x < 4294967296 := by
+  unfold toU32; omega
+
+end LA
